@@ -1,4 +1,5 @@
 """C17 — metadata set through the API is returned exactly and survives reopening."""
+import os
 from . import common as C
 from . import apilib as A
 
@@ -55,10 +56,31 @@ def run(ctx):
                 continue
             seen.add(sg)
             C.add_violation(ctx, sg, msg[:300], "# C17: %s\n# replay: harness faults --meta (deterministic; the line names setter, path, version and the underlying call index of the fault)\n" % msg[:1000])
+    # a new object starts with a nil CLSID, zero state bits and (a stream) zero times whatever the free directory
+    # slot it is created into held before: foreign layouts whose unallocated entries carry non-zero bytes in the
+    # CLSID / state / time fields (both open modes accept them), three streams and three storages created into
+    # them, judged through entry() at once and through the strictly reopened bytes
+    import glob, shutil
+    ldir = ctx.path("dirty-lay")
+    os.makedirs(ldir, exist_ok=True)
+    C.harness(["layout", "--seed", ctx.seed + 17, "--count", 60 if quick else 400, "--outdir", ldir])
+    bases = sorted(f for f in glob.glob(os.path.join(ldir, "L*.cfb")) if "_after" not in f and "_highbits" not in f)
+    dstat = {}
+    if bases:
+        blist = ctx.path("dirty.bases")
+        open(blist, "w").write("\n".join(bases) + "\n")
+        rc, out = C.harness(["damage", "--dirty-slots", "--seed", ctx.seed, "--bases", blist, "--count", 300 if quick else 4000], timeout=1200)
+        dstat, _, orc = C.parse_stats(out)
+        total += dstat.get("dirty_created", 0)
+        hist["objects-created-into-non-blank-free-slots"] = dstat.get("dirty_created", 0)
+        for msg in orc[:2]:
+            C.add_violation(ctx, "dirty-free-slot:" + ("reopen" if "after reopening" in msg or "no longer open" in msg else "panic" if "panic" in msg else "live"), msg[:300],
+                            "# C17: %s\n# replay: harness layout --seed %d --count %d --outdir <dir>; harness damage --dirty-slots --seed %d --bases <list of the L*.cfb> --count %d\n" % (msg[:1000], ctx.seed + 17, 60 if quick else 400, ctx.seed, 300 if quick else 4000))
+    shutil.rmtree(ldir, ignore_errors=True)
     ctx.coverage.update({
         "evaluations": total,
         "distinct_nontrivial": total,
-        "rule": "calls of Timestamp::from_system_time / to_system_time through hook H2 on instants drawn around 1601, 1970, the saturation points, i64 second extremes and sub-100ns fractions of both signs, and on 64-bit timestamp values around 0, the Unix epoch and u64::MAX; every call compared with the Lean model (level O) and with an i128 oracle; every setter on storages, streams and the root with a transient write/seek fault at each underlying call position, retried until Ok, then judged through entry() and through the reopened bytes; distinctness not measured (inputs are 64+30 bit random with anchors; collisions negligible)",
+        "rule": "calls of Timestamp::from_system_time / to_system_time through hook H2 on instants drawn around 1601, 1970, the saturation points, i64 second extremes and sub-100ns fractions of both signs, and on 64-bit timestamp values around 0, the Unix epoch and u64::MAX; every call compared with the Lean model (level O) and with an i128 oracle; every setter on storages, streams and the root with a transient write/seek fault at each underlying call position, retried until Ok, then judged through entry() and through the reopened bytes; objects created into free directory slots that are not blank (foreign files) judged the same way; distinctness not measured (inputs are 64+30 bit random with anchors; collisions negligible)",
         "samples": samples,
         "histogram": hist,
     })
